@@ -14,7 +14,8 @@ def instances(tier):
     for kind in (0, 1, 2):
         out.append({'entry': 'h_lambda', 'params': [B, kind], 'bound': 'lambda Thread with %s body, join(), finished(); at most %d preemptions' % (('an empty', 'a one-step', 'a multi-step')[kind], B)})
     for k in (2, 3, 4):
-        out.append({'entry': 'h_invoke', 'params': [2 if k < 4 else 1, k], 'bound': 'parallel_invoke of %d functions, at most %d preemptions' % (k, 2 if k < 4 else 1)})
+        for slow in ((k,) if q else tuple(range(1, k + 1))):
+            out.append({'entry': 'h_invoke', 'params': [2 if k < 4 else 1, k, slow], 'bound': 'parallel_invoke of %d functions, at most %d preemptions (natively function %d is slow)' % (k, 2 if k < 4 else 1, slow)})
     # parallel_for: i0, i1 and the thread count are symbolic within the stated ranges
     out.append({'entry': 'h_parfor', 'params': [2, 0, 2, 2], 'bound': 'parallel_for: symbolic -3 <= i0 <= 2, 0 <= i1 <= 2, 1 <= nth <= 2; at most 2 preemptions'})
     out.append({'entry': 'h_parfor', 'params': [1, 0, 3, 3], 'bound': 'parallel_for: symbolic -3 <= i0 <= 3, 0 <= i1 <= 3, 1 <= nth <= 3; at most 1 preemption'})
@@ -28,6 +29,8 @@ def instances(tier):
             out.append({'entry': 'h_sem', 'params': [B, posts, mode], 'bound': 'Semaphore: %d post(s) (%s) against %d wait(s) in another thread, at most %d preemptions' % (posts, 'post(n)' if mode else 'single posts', posts, B)})
     for nw in ((1, 2) if q else (1, 2, 3)):
         out.append({'entry': 'h_cond', 'params': [B if nw < 3 else 2, nw], 'bound': 'Condition under the documented mutex protocol: %d waiter(s), one signaller, at most %d preemptions' % (nw, B if nw < 3 else 2)})
+    for n, nth in (((5, 3),) if q else ((5, 3), (8, 4), (3, 2))):
+        out.append({'entry': 'h_parfor_functor', 'params': [2 if q else 3, n, nth], 'bound': 'parallel_for(0, %d, function object, %d threads), at most %d preemptions' % (n, nth, 2 if q else 3)})
     out.append({'entry': 'h_functor2', 'params': [B], 'bound': 'two function-object Threads of the same type started back to back, at most %d preemptions' % B})
     out.append({'entry': 'h_lambda2', 'params': [B], 'bound': 'two lambda Threads of the same closure type started back to back, at most %d preemptions' % B})
     return out
